@@ -65,7 +65,7 @@ func TestVerifC07(t *testing.T) {
 	r := vlib.Start("C07", vPart("det"))
 	defer r.Finish()
 	rr := r.Rand("c07", r.Part)
-	n := r.Pick(1000, 30000)
+	n := r.Pick(1000, 100000)
 	if r.Part != "det" {
 		n = r.Pick(150, 3000)
 	}
@@ -155,7 +155,7 @@ func TestVerifC08(t *testing.T) {
 	r := vlib.Start("C08", vPart("det"))
 	defer r.Finish()
 	rr := r.Rand("c08", r.Part)
-	n := r.Pick(400, 10000)
+	n := r.Pick(480, 40000)
 	if r.Part != "det" {
 		n = r.Pick(150, 2000)
 	}
@@ -380,7 +380,7 @@ func TestVerifC09(t *testing.T) {
 	}
 	// random sequences mixing valid, invalid and read time-outs
 	rr := r.Rand("c09", r.Part)
-	n := r.Pick(200, 10000)
+	n := r.Pick(300, 40000)
 	if r.Part != "det" {
 		n = r.Pick(100, 1000)
 	}
@@ -646,7 +646,7 @@ func TestVerifC10(t *testing.T) {
 		"timeoutsinv:1", "timeoutsinv:3", "timeoutsinv:4", "timeoutsinv:5",
 		"linkondial", "write:nobufs", "write:perm", "write:other", "writepending:nobufs", "writepending:other", "writeall:nobufs", "writeall:perm", "link", "watchclose"}
 	// the same read-side faults against a Monitor task
-	mreps := r.Pick(4, 40)
+	mreps := r.Pick(4, 150)
 	for _, k := range []string{"read:syscall", "read:perm", "read:other", "timeouts:1", "timeouts:4", "timeouts:5", "timeouts:6", "link", "linkondial", "watchclose"} {
 		for rep := 0; rep < mreps; rep++ {
 			at := 4*time.Second + time.Duration(rr.Int63n(int64(8*time.Second)))
@@ -654,7 +654,7 @@ func TestVerifC10(t *testing.T) {
 		}
 	}
 	i := 0
-	reps := r.Pick(3, 40)
+	reps := r.Pick(3, 150)
 	for _, k := range kinds {
 		for _, uo := range []bool{false, true} {
 			for _, lat := range []time.Duration{0, 2 * vMs} {
